@@ -387,6 +387,9 @@ func (s *c15Session) setupHost() {
 	s.mustGit(h, "push", "-q", "origin", "main", "feature/x", "v1")
 	s.mustGit(h, "fetch", "-q", "origin")
 	s.mustGit(h, "branch", "-q", "-u", "origin/main", "main")
+	// somebody else tagged, on the remote, a commit the host already has: a fetch that follows tags would create
+	// refs/tags/remote-only in the host
+	s.mustGit(rem, "tag", "remote-only", "refs/heads/main")
 	if s.in.Host.SecondRemote {
 		rem2 := filepath.Join(s.root, "backup.git")
 		s.mustGit(s.root, "init", "-q", "--bare", "-b", "main", rem2)
